@@ -816,6 +816,24 @@ func (env *SpecEnv) call(x *ast.CallExpr) Val {
 			specErr("unknown type %q", ts)
 		}
 		return Val{t: eq(app("i_tag", v.t), fmt.Sprint(vc.te.tagOf(t))), typ: boolT}
+	case "nlwritten": // ghost: newline bytes written to a strings.Builder (argument: the builder variable)
+		v := env.rv(env.eval(x.Args[0]))
+		return env.inState(func() Val {
+			return Val{t: f.readAddr(&Addr{kind: "C", loc: builderNLLoc, li: LocInfo{Kind: "C", Val: intT}, ref: v.t}), typ: intT}
+		})
+	case "cntnl": // cntnl(s, from): number of '\n' elements in s[from:] (uninterpreted, unfolded once at `from`)
+		v := env.rv(env.eval(x.Args[0]))
+		from := env.rv(env.eval(x.Args[1]))
+		st, ok := v.typ.Underlying().(*types.Slice)
+		if !ok || isStruct(st.Elem()) {
+			specErr("cntnl on %s", v.typ)
+		}
+		l, li := locElem(st.Elem())
+		return env.inState(func() Val {
+			arr, off, ln, _ := sliceParts(v.t)
+			row := app("select", vc.he.get(f.cur, l, li.sort(vc.te)), arr)
+			return Val{t: vc.cntNL(row, app("+", off, from.t), app("+", off, ln)), typ: intT}
+		})
 	case "selfcall": // the function under verification applied to other arguments (pure functions only)
 		var args []Val
 		for _, a := range x.Args {
